@@ -22,7 +22,7 @@ UNIT = "serde"
 PINNED = [
     "kv_roundtrip", "normal_idem", "second_roundtrip", "text_roundtrip", "text_second_roundtrip",
     "class_normal_form", "typed_roundtrip", "de_total", "from_koto_total", "to_koto_total", "ser_total",
-    "typed_u64_refuted", "typed_some_none_refuted", "typed_struct_key_refuted", "de_range_error_refuted",
+    "key_equality_numbers", "typed_u64_refuted", "typed_some_none_refuted", "typed_struct_key_refuted", "de_range_error_refuted",
 ]
 
 KNOWN = {
@@ -610,12 +610,6 @@ def gen_dm(rng, depth):
     if k == 10:
         return ["tvar", rng.choice(["A", "B"]), subs()]
     return ["svar", rng.choice(["A", "B"]), fields()]
-
-
-def dm_has_equal_number_keys(d):
-    """outside the model's domain: a map with two number keys that are numerically equal but
-    represented differently (see SerdeModel.v), or NaN keys"""
-    return False
 
 
 # ------------------------------------------------------------------------------------------------
